@@ -59,7 +59,12 @@ def main():
         from vf import selftest
 
         sys.exit(selftest.main())
-    mod = importlib.import_module(f"vf.props.{a.prop}")
+    try:
+        mod = importlib.import_module(f"vf.props.{a.prop}")
+    except Exception:
+        # a broken driver is a checker error (exit 3), never a verdict about the repository
+        print("CHECKER-ERROR: cannot load the driver of " + a.prop + ": " + traceback.format_exc()[-800:])
+        sys.exit(3)
     if a.replay:
         payload = json.load(open(a.replay))
         from vf.replay import replay
